@@ -3,8 +3,8 @@
   `(replMid …).mergeNewAt q new` (child list `mergeNew new (lX ++ t :: rX)` at the parent, `PutSite`):
 
   * xot's last consolidation `remove_consolidate(previous_sibling(next), next)` (609b613) completes
-    `mergeNew` to `mergeNew3` in every geometry (`prevStep_noop`, `prevStep_merge`, `final_next`,
-    `final_last`): the model is `specReplaceP`;
+    `mergeNew` to `mergeNew3` in every geometry (`prevStep_noop`, `prevStep_merge` here; `final_next`,
+    `final_last` in `FspecAllRepl6.lean`): the model is `specReplaceP`;
   * the pair merge of the two FORMER neighbours of the replaced node,
     `remove_consolidate(previous, next_sibling(previous))` (`final_after`, `final_first`; what xot did
     before 609b613), after `mergeNew` is `mergeNew3` too unless the left neighbour has been merged
@@ -477,126 +477,6 @@ theorem mergeK_eq_mergeP (ps : PutSite f a b q vq l r t lX rX) (ht : t.handle = 
         rfl
     · rw [joinLeft_none hb]
       rfl
-
-/-- **xot's last step (since 609b613) when the replaced node had a next sibling** `N`: the node `N`
-    is consolidated with whatever stands before it now — the text node that took in the replacing
-    text, also when that is not the former left neighbour of the replaced node (which may have been
-    merged away when the replacing node left).  Together with `mergeNew` that is `mergeNew3`. -/
-theorem final_next (ps : PutSite f a b q vq l r t lX rX) (ht : t.handle = b) (hlX : lX ≠ [])
-    {N : HTree} {r0 : List HTree} (er : r = N :: r0) :
-    (((replMid f a b q t).mergeNewAt q b).removeConsolidate
-        (((replMid f a b q t).mergeNewAt q b).prevSibling N.handle) (some N.handle)).1 =
-      (replMid f a b q t).mergeNew3At q b := by
-  subst ht
-  cases hc : f.consolidation with
-  | false =>
-    have cX : (replMid f a t.handle q t).consolidation = false := by rw [replMid_consolidation]; exact hc
-    have c2 := cons2 f a t.handle q t
-    rw [hc] at c2
-    rw [Forest.removeConsolidate_off c2, Forest.mergeNewAt_off cX]
-    unfold Forest.mergeNew3At
-    rw [cX]
-    rfl
-  | true =>
-    have cX : (replMid f a t.handle q t).consolidation = true := by rw [replMid_consolidation]; exact hc
-    have c2 := cons2 f a t.handle q t
-    rw [hc] at c2
-    have s2 := ps.site2 hc
-    obtain ⟨tl, tr⟩ := ps.tops rfl
-    obtain ⟨l1, x', elX⟩ : ∃ l1 x', lX = l1 ++ [x'] := by
-      rcases List.eq_nil_or_concat lX with e | ⟨l1, x', e⟩
-      · exact absurd e hlX
-      · exact ⟨l1, x', by rw [e, List.concat_eq_append]⟩
-    rcases ps.right with ⟨e1, _⟩ | ⟨N0, r0', N', r1, e1, erX, hN, hNt⟩
-    · rw [er] at e1; cases e1
-    · have eN : N0 = N := by
-        rw [er] at e1
-        injection e1 with h _
-        exact h.symm
-      subst eN
-      subst elX erX
-      have hl1 : ∀ k ∈ l1, k.handle ≠ t.handle := fun k hk => tl k (by simp [hk])
-      have hx't : x'.handle ≠ t.handle := tl x' (by simp)
-      have eM : (l1 ++ [x']) ++ t :: N' :: r1 = l1 ++ x' :: t :: N' :: r1 := by simp
-      have hleafN : ∀ k ∈ N' :: r1, k.value.isText = true → k.kids = [] := ps.leafR
-      unfold Forest.mergeNew3At
-      rw [cX, if_pos rfl, ← hN]
-      by_cases hb : x'.value.isText = true ∧ t.value.isText = true
-      · -- the replacing text has been merged into the text node before it
-        obtain ⟨s, hs⟩ := text_of_isText hb.1
-        obtain ⟨v, hv⟩ := text_of_isText hb.2
-        rw [eM, mergeNew_mid_left hs hv l1 (N' :: r1) hl1 hx't] at s2
-        have s2' : SiteAt ((replMid f a t.handle q t).mergeNewAt q t.handle) q vq
-            ((l1 ++ [x'.setValue (.text (s ++ v))]) ++ N' :: r1) := by
-          have : (l1 ++ [x'.setValue (.text (s ++ v))]) ++ N' :: r1 = l1 ++ x'.setValue (.text (s ++ v)) :: N' :: r1 := by
-            simp
-          rw [this]; exact s2
-        by_cases hNt' : N'.value.isText = true
-        · obtain ⟨w, hw⟩ := text_of_isText hNt'
-          rw [prevStep_merge s2' c2 (setValue_value _ _) hw hleafN, Forest.mergeNewAt_on cX, Forest.editAt_editAt]
-          apply ps.site.congr
-          simp only [Function.comp]
-          rw [eM, mergeNew3_mid (N' :: r1) l1 hl1 hx't, joinLeft_text hs hv]
-          simp only [Option.map_some, Option.getD_some]
-          rw [absorbNext_cons, joinLeft_text (setValue_value _ _) hw]
-          rfl
-        · rw [prevStep_noop s2' (fun h => hNt' h.2), Forest.mergeNewAt_on cX]
-          apply ps.site.congr
-          rw [eM, mergeNew_mid (N' :: r1) l1 hl1 hx't, mergeNew3_mid (N' :: r1) l1 hl1 hx't, joinLeft_text hs hv]
-          simp only [Option.map_some, Option.getD_some]
-          rw [absorbNext_cons, joinLeft_none (fun h => hNt' h.2)]
-          rfl
-      · -- the replacing node stands behind its left neighbour, unmerged: nothing left to do
-        have hspec : (replMid f a t.handle q t).editAt (some q) (mergeNew3 t.handle) =
-            (replMid f a t.handle q t).mergeNewAt q t.handle := by
-          rw [Forest.mergeNewAt_on cX]
-          apply ps.site.congr
-          rw [eM, mergeNew_mid (N' :: r1) l1 hl1 hx't, mergeNew3_mid (N' :: r1) l1 hl1 hx't, joinLeft_none hb]
-          rfl
-        rw [hspec]
-        rw [eM, mergeNew_mid_right hb l1 (N' :: r1) hl1 hx't] at s2
-        by_cases hb2 : t.value.isText = true ∧ N'.value.isText = true
-        · obtain ⟨u, hu⟩ := text_of_isText hb2.1
-          obtain ⟨w, hw⟩ := text_of_isText hb2.2
-          rw [mergeNewHead_text hu hw] at s2
-          have s2' : SiteAt ((replMid f a t.handle q t).mergeNewAt q t.handle) q vq
-              ((l1 ++ [x']) ++ N'.setValue (.text (u ++ w)) :: r1) := by
-            have : (l1 ++ [x']) ++ N'.setValue (.text (u ++ w)) :: r1 = l1 ++ x' :: N'.setValue (.text (u ++ w)) :: r1 := by
-              simp
-            rw [this]; exact s2
-          have := prevStep_noop s2' (fun h => hb ⟨h.1, hb2.1⟩)
-          rw [setValue_handle] at this
-          exact this
-        · rw [mergeNewHead_other hb2] at s2
-          have s2' : SiteAt ((replMid f a t.handle q t).mergeNewAt q t.handle) q vq
-              (((l1 ++ [x']) ++ [t]) ++ N' :: r1) := by
-            have : ((l1 ++ [x']) ++ [t]) ++ N' :: r1 = l1 ++ x' :: t :: N' :: r1 := by simp
-            rw [this]; exact s2
-          exact prevStep_noop s2' hb2
-
-/-- The replaced node was the last child: after `mergeNew` nothing is left to do (`mergeNew3`). -/
-theorem final_last (ps : PutSite f a b q vq l r t lX rX) (ht : t.handle = b) (er : r = []) :
-    (replMid f a b q t).mergeNewAt q b = (replMid f a b q t).mergeNew3At q b := by
-  subst ht
-  unfold Forest.mergeNew3At Forest.mergeNewAt
-  split
-  · obtain ⟨tl, tr⟩ := ps.tops rfl
-    rcases ps.right with ⟨_, erX⟩ | ⟨N0, r0', N', r1, e1, _, _, _⟩
-    · subst erX
-      apply ps.site.congr
-      rcases List.eq_nil_or_concat lX with e | ⟨l1, x', e⟩
-      · subst e
-        simp only [List.nil_append]
-        rw [mergeNew_head [] (fun _ h => by cases h), mergeNew3_head [] (fun _ h => by cases h)]
-      · rw [List.concat_eq_append] at e
-        subst e
-        have hl1 : ∀ k ∈ l1, k.handle ≠ t.handle := fun k hk => tl k (by simp [hk])
-        have hx't : x'.handle ≠ t.handle := tl x' (by simp)
-        have eM : (l1 ++ [x']) ++ [t] = l1 ++ x' :: t :: [] := by simp
-        rw [eM, mergeNew_mid [] l1 hl1 hx't, mergeNew3_mid [] l1 hl1 hx't]
-        cases joinLeft x' t <;> rfl
-    · rw [er] at e1; cases e1
-  · rfl
 
 end PutSite
 end XotModel
